@@ -295,8 +295,18 @@ RealResult runReal(const Config &cfg, const RealInput &in) {
     unlink(paFile.c_str());
     unlink(argFile.c_str());
     if (in.haveFile) {
+      // an argument file may name another one: "outer\x02inner" - the inner body goes to its own file and
+      // the placeholder @INNER@ in the outer body is replaced by its path
+      std::string outer = in.fileBody;
+      const auto cut = outer.find('\x02');
+      if (cut != std::string::npos) {
+        const std::string innerFile = dir + "/inner-args.txt";
+        { std::ofstream fi(innerFile, std::ios::binary); fi << outer.substr(cut + 1); }
+        outer.erase(cut);
+        for (auto p = outer.find("@INNER@"); p != std::string::npos; p = outer.find("@INNER@")) outer.replace(p, 7, innerFile);
+      }
       std::ofstream f(in.fileViaArgument ? argFile : paFile, std::ios::binary);
-      f << in.fileBody;
+      f << outer;
     }
     if (envName.empty()) { envName = prog; for (auto &c : envName) c = static_cast<char>(toupper(static_cast<unsigned char>(c))); }
     unsetenv(envName.c_str());
